@@ -200,6 +200,7 @@ func splitHexList(s string) [][]byte {
 }
 
 func serveOp(c *Ctx, op string) {
+	c.Begin(op)
 	a := kvArgs(strings.Fields(op))
 	proto, kind := a["proto"], a["kind"]
 	min := atoi(a["min"])
@@ -564,6 +565,7 @@ func cdecEmit(c *Ctx, proto, kind string, r *sresp, v clientView) {
 
 // cdecOp: run a crafted structured response through a real client (C06 oracle + model).
 func cdecOp(c *Ctx, op string) {
+	c.Begin(op)
 	a := kvArgs(strings.Fields(op))
 	proto, kind := a["proto"], a["kind"]
 	r := &sresp{status: atoi(a["status"]), header: parseHdr(a["hdr"]), body: parseBody(a["body"]), trailer: parseHdr(a["trl"])}
@@ -998,6 +1000,21 @@ func mutatedResponses(c *Ctx) {
 					} else {
 						cdecOp(c, cdecLine(proto, kind, &sresp{status: 200, header: hdr{"Content-Type": {ct}}, body: append(append([]bodyItem{}, one...), bodyItem{kind: "web", header: tr})}))
 						cdecOp(c, cdecLine(proto, kind, &sresp{status: 200, header: hdr{"Content-Type": {ct}}, body: []bodyItem{{kind: "web", header: tr}}}))
+					}
+					hh := hdr{"Content-Type": {ct}}
+					for k, v := range tr {
+						hh[k] = v
+					}
+					cdecOp(c, cdecLine(proto, kind, &sresp{status: 200, header: hh}))
+				}
+				// Grpc-Message variants: truncated, invalid and non-UTF-8 percent escapes (the value is
+				// peer-controlled; decoding it must not panic and yields what the model's decoder yields)
+				for _, gm := range []string{"%", "%2", "a%20b%2", "a%20b%", "%zz", "%2G", "%C3%28", "%00", "x%FFy", "%E2%82%AC", "100%", "%%", "a%20", "plain text", " lead", "trail ", "\tTab", ""} {
+					tr := hdr{"Grpc-Status": {"9"}, "Grpc-Message": {gm}}
+					if proto == "grpc" {
+						cdecOp(c, cdecLine(proto, kind, &sresp{status: 200, header: hdr{"Content-Type": {ct}}, body: []bodyItem{{kind: "f", data: []byte{1}}}, trailer: tr}))
+					} else {
+						cdecOp(c, cdecLine(proto, kind, &sresp{status: 200, header: hdr{"Content-Type": {ct}}, body: []bodyItem{{kind: "f", data: []byte{1}}, {kind: "web", header: tr}}}))
 					}
 					hh := hdr{"Content-Type": {ct}}
 					for k, v := range tr {
